@@ -221,6 +221,7 @@ async def run(ctx) -> None:
         amb = loop.create_task(ambient(hub, cfg, k("ambient_period", 240.0), k("neighbour", False),
                                        lambda n: hub.count("ambient_device_frames", n)))
     n_snap = [0]
+    last_pause_end = [0.0]  # a restore pauses the engine: polls that fall due meanwhile are refused and repeated a polling round later
 
     async def restore(pk: dict, secs: float) -> None:
         # the application puts a saved state back while discovery is running (the engine is paused meanwhile, on a slow host for
@@ -233,6 +234,7 @@ async def run(ctx) -> None:
             ctx.violate("C12", "restore_raised", exc_sig(err), f"restoring a snapshot during discovery raised {type(err).__name__}: {err}")
         finally:
             loop.iter_cost = 0.0
+            last_pause_end[0] = loop.time() - t0
 
     def snapshot():
         try:
@@ -249,7 +251,7 @@ async def run(ctx) -> None:
             return
         n_snap[0] += 1
         d = plan.decide(f"restore_after_snapshot/{n_snap[0]}", lambda rr: ["yes", rr.choice([2.0, 8.0, 30.0])] if rr.random() < 0.7 else ["no"], ["no"])
-        if d[0] == "yes" and st[1]:
+        if d[0] == "yes" and st[1] and not k("fault_free"):  # (the fault-free runs keep their 20-minute liveness bound)
             loop.create_task(restore(st[1], d[1]))
 
     for ts in k("snapshots", []):
@@ -290,7 +292,7 @@ async def run(ctx) -> None:
     missing = want_facts - final
     # a discovery send that is lost -- or that waits too long in the send queue -- is repeated one polling
     # interval (24 h) later: "filled in at a later polling round"
-    bound = fw + 24 * 3600 + 1800
+    bound = max(fw, last_pause_end[0]) + 24 * 3600 + 1800
     if missing and t >= bound:
         ctx.violate("C12", "incomplete", sorted(missing)[0][0], f"after {t / 3600:.1f} h (faults stopped at {fw} s) the schema still "
                     f"lacks {sorted(missing)[:5]}; dropped replies={dropped}; config={cfg}")
